@@ -1760,7 +1760,7 @@ pub fn run_model_opt(case: &Case, conv: Conv, sentinel: bool) -> Result<MResult,
     match a {
       Action::Subscribe(k) => m_subscribe(&sh, *k),
       Action::Emit(i, ev) => env.emit(*i, ev),
-      Action::Unsub(k) | Action::DropUsing(k) => {
+      Action::Unsub(k) | Action::DropUsing(k) | Action::DropUsingUnwinding(k) => {
         let d = sh.subs.borrow()[*k].clone();
         if let Some(d) = d {
           unsubbed[*k] = true;
